@@ -47,19 +47,7 @@ def solver_part(tier):
     s2.add(z3.Or(*[v.state == n for n in asked]) if asked else z3.BoolVal(False))
     pmodel._check(s2, "twin: the start state does ask for it", res, expect="sat")
     out = _p.finish("C05", res, t0)
-    # shipped table identical to master table (plain comparison of two files; labelled as such)
-    a = open(os.path.join(runner.REPO, "gherkin-languages.json"), "rb").read()
-    b = open(os.path.join(runner.REPO, "python/gherkin/gherkin-languages.json"), "rb").read()
-    same_bytes = a == b
-    same_json = json.loads(a) == json.loads(b)
-    out["coverage"]["language_tables"] = {"byte_identical": same_bytes, "json_equal": same_json, "sha1_master": hashlib.sha1(a).hexdigest(),
-                                          "note": "plain file comparison, not a solver result"}
-    if not same_json:
-        blob = {"property": "C05", "what": "shipped language table differs from master table"}
-        os.makedirs(os.path.join(runner.VERIF, "replays"), exist_ok=True)
-        path = os.path.join(runner.VERIF, "replays", "C05-tables.json")
-        json.dump(blob, open(path, "w"))
-        out["violations"].append({"replay": path, "what": "python/gherkin/gherkin-languages.json is not equal to /repo/gherkin-languages.json"})
+    _p.compare_language_tables("C05", out)
     return out
 
 
@@ -71,7 +59,7 @@ def conditions(tier):
         for d in SPECIAL:
             cs.append(Cond(M, "keyword_in_role", {"dialect": d, "maxlen": 1}, T=900, reach=["in-role", "match", "no-match"]))
         for d, o in (("en", "fr"), ("ht", "en"), ("fr", "en")):
-            for mode in ("header", "history", "same"):
+            for mode in (("header", "history", "same", "history2") if d == "fr" else ("header", "history", "same")):
                 cs.append(Cond(M, "keyword_in_role", {"dialect": d, "mode": mode, "other": o, "maxlen": 0}, T=900, reach=["in-role"]))
     else:
         for d in sorted(table):
